@@ -136,15 +136,15 @@ func init() {
 						}
 					}
 				}
-				facts := validityFacts(valid, rp.Name())
+				facts := validityFacts(valid, accessPath(rp))
 				if len(strategies) == 1 {
 					for s := range strategies {
 						given := map[string]bool{}
 						for _, f := range facts {
 							given[f] = true
 						}
-						given[fmt.Sprintf("%d == %s.TokenCalculateStrategy", s, rp.Name())] = true
-						facts = append(facts, conditionalValidityFacts(valid, rp.Name(), given)...)
+						given[fmt.Sprintf("%d == %s.TokenCalculateStrategy", s, accessPath(rp))] = true
+						facts = append(facts, conditionalValidityFacts(valid, accessPath(rp), given)...)
 						c.Note("%s is registered only under TokenCalculateStrategy=%d; assumed facts: %v", fnKey(ctor), s, facts)
 					}
 				}
@@ -209,43 +209,81 @@ func init() {
 				p := accessPath(a.val)
 				var mem string
 				for k := range a.facts {
-					if strings.HasSuffix(k, " <= m.memLowWaterMark") {
-						mem = strings.TrimSuffix(k, " <= m.memLowWaterMark")
+					if strings.HasSuffix(k, " <= {MemoryAdaptiveTrafficShapingCalculator}.memLowWaterMark") {
+						mem = strings.TrimSuffix(k, " <= {MemoryAdaptiveTrafficShapingCalculator}.memLowWaterMark")
 					}
 				}
 				lowBranch := mem != ""
 				highBranch := false
 				midBranch := false
 				for k := range a.facts {
-					if strings.HasPrefix(k, "m.memHighWaterMark <= ") {
+					if strings.HasPrefix(k, "{MemoryAdaptiveTrafficShapingCalculator}.memHighWaterMark <= ") {
 						highBranch = true
 					}
 				}
-				_, lowNeg := anyFact(a.facts, "m.memLowWaterMark < ")
-				_, highNeg := anyFact(a.facts, " < m.memHighWaterMark")
+				_, lowNeg := anyFact(a.facts, "{MemoryAdaptiveTrafficShapingCalculator}.memLowWaterMark < ")
+				_, highNeg := anyFact(a.facts, " < {MemoryAdaptiveTrafficShapingCalculator}.memHighWaterMark")
 				midBranch = lowNeg && highNeg
 				key := fmt.Sprintf("%s / alternative#%d", fnKey(f), i+1)
 				switch {
 				case lowBranch:
 					seen["low"] = true
-					c.Check(p == "float64(m.lowMemUsageThreshold)", key, a.pos, "mem <= low water mark yields %s (want the low-memory threshold)", p)
+					c.Check(p == "float64({MemoryAdaptiveTrafficShapingCalculator}.lowMemUsageThreshold)", key, a.pos, "mem <= low water mark yields %s (want the low-memory threshold)", p)
 				case highBranch:
 					seen["high"] = true
-					c.Check(p == "float64(m.highMemUsageThreshold)", key, a.pos, "mem >= high water mark yields %s (want the high-memory threshold)", p)
+					c.Check(p == "float64({MemoryAdaptiveTrafficShapingCalculator}.highMemUsageThreshold)", key, a.pos, "mem >= high water mark yields %s (want the high-memory threshold)", p)
 				case midBranch:
 					seen["mid"] = true
-					ok := strings.Contains(p, "m.highMemUsageThreshold") && strings.Contains(p, "m.lowMemUsageThreshold") && strings.Contains(p, "m.memHighWaterMark") && strings.Contains(p, "m.memLowWaterMark") && strings.Contains(p, "CurrentMemoryUsage()")
+					ok := strings.Contains(p, ".highMemUsageThreshold") && strings.Contains(p, ".lowMemUsageThreshold") && strings.Contains(p, ".memHighWaterMark") && strings.Contains(p, ".memLowWaterMark") && strings.Contains(p, "CurrentMemoryUsage()")
 					c.Check(ok, key, a.pos, "between the water marks the threshold interpolates over the four bounds and the memory reading: %s", p)
 				default:
 					// memory not retrievable: conservative low threshold
 					_, notRetrieved := anyFact(a.facts, "CurrentMemoryUsage()", " == ")
-					c.Check(notRetrieved && p == "float64(m.lowMemUsageThreshold)", key, a.pos, "fallback alternative %s under [%s]", p, factList(a.facts))
+					c.Check(notRetrieved && p == "float64({MemoryAdaptiveTrafficShapingCalculator}.lowMemUsageThreshold)", key, a.pos, "fallback alternative %s under [%s]", p, factList(a.facts))
 				}
 			}
 			for _, k := range []string{"low", "high", "mid"} {
 				if !seen[k] {
 					c.Violate(fnKey(f)+" / branch "+k, f.Pos(), "the %s branch of the three-way partition is missing", k)
 				}
+			}
+		},
+	})
+
+	register(&Rule{
+		ID: "adaptive.warmup-alternatives", Props: []string{"C11"}, Floor: 2,
+		Doc: "WarmUpTrafficShapingCalculator.CalculateAllowedTokens yields either the configured threshold itself (stored tokens below the warning line) or the warning-zone rate computed from the stored tokens, the slope and the threshold; no alternative is a constant or independent of the configured threshold (a rate that does not depend on the threshold exceeds some valid threshold or its cold rate)",
+		Run: func(c *Ctx) {
+			f := c.P.Func("core/flow.(*WarmUpTrafficShapingCalculator).CalculateAllowedTokens")
+			if f == nil {
+				c.AnchorLost("WarmUpTrafficShapingCalculator.CalculateAllowedTokens")
+				return
+			}
+			n := 0
+			var collect func(v ssa.Value, blk *ssa.BasicBlock, extra []Fact, pos token.Pos, d int)
+			collect = func(v ssa.Value, blk *ssa.BasicBlock, extra []Fact, pos token.Pos, d int) {
+				if phi, ok := v.(*ssa.Phi); ok && d < 4 {
+					for i, e := range phi.Edges {
+						pred := phi.Block().Preds[i]
+						collect(e, pred, edgeFact(pred, phi.Block()), phi.Pos(), d+1)
+					}
+					return
+				}
+				n++
+				p := accessPath(v)
+				facts := canonFacts(blk, extra...)
+				key := fmt.Sprintf("%s / alternative#%d", fnKey(f), n)
+				const th = "{WarmUpTrafficShapingCalculator}.threshold"
+				if p == th {
+					_, below := anyFact(facts, " < int64({WarmUpTrafficShapingCalculator}.warningToken)")
+					c.Check(below, key, pos, "the full threshold is granted under [%s] (want: stored tokens below the warning line)", factList(facts))
+					return
+				}
+				ok := strings.Contains(p, th) && strings.Contains(p, "{WarmUpTrafficShapingCalculator}.slope") && strings.Contains(p, ".storedTokens") && strings.Contains(p, ".warningToken")
+				c.Check(ok, key, pos, "warning-zone rate %s derives from threshold, slope, stored tokens and warning line", p)
+			}
+			for _, r := range returnsOf(f) {
+				collect(r.Results[0], r.Block(), nil, r.Pos(), 0)
 			}
 		},
 	})
